@@ -65,13 +65,17 @@ pub fn file_bytes_odb(run: u32, t0: u32, t1: u32, events: &[Event], odb0: &[u8],
 }
 
 /// Writes `bytes` to `path`; lz4 frame format when the path ends in ".lz4".
+pub fn save_lz4(path: &std::path::Path, bytes: &[u8]) {
+    let f = std::fs::File::create(path).unwrap();
+    let mut enc = lz4::EncoderBuilder::new().build(f).unwrap();
+    enc.write_all(bytes).unwrap();
+    let (_f, r) = enc.finish();
+    r.unwrap();
+}
+
 pub fn save(path: &std::path::Path, bytes: &[u8]) {
     if path.extension().map(|e| e == "lz4").unwrap_or(false) {
-        let f = std::fs::File::create(path).unwrap();
-        let mut enc = lz4::EncoderBuilder::new().build(f).unwrap();
-        enc.write_all(bytes).unwrap();
-        let (_f, r) = enc.finish();
-        r.unwrap();
+        save_lz4(path, bytes);
     } else {
         std::fs::write(path, bytes).unwrap();
     }
